@@ -55,9 +55,13 @@ package parse
 //@   at call append#1 assert strings.HasPrefix(strings.TrimSpace(scanner.Text()), "goverter:")
 //@           && arg1 == strings.TrimPrefix(strings.TrimSpace(scanner.Text()), "goverter:")
 
+// every comment of the group contributes its text: nothing is dropped but the comment markers and at most
+// one leading space (a line like `//<TAB>goverter:x` stays a line and is trimmed later by SettingLines)
 //@ func CommentToString
 //@   props C19
 //@   pure
+//@   loop 2 invariant idx > 0 ==> reached("strings.Split#1")
+//@   at call strings.Split#1 assert arg1 == "\n" && strings.Contains(comments[idx], arg0) && len(arg0) + 4 >= len(comments[idx])
 
 // ---- C15: @cwd/ paths are resolved against the working directory, everything else is kept ----
 //@ func File
